@@ -5,6 +5,7 @@ import NucleoVerif.Driver.Pattern
 import NucleoVerif.Driver.Boxcar
 import NucleoVerif.Driver.Nucleo
 import NucleoVerif.Driver.ParSort
+import NucleoVerif.Driver.Drop
 /-! Model driver: one request per line on stdin, one answer per line on stdout.
 Answers: `ok` | `DIFF <what the model says>` | `ORACLE <violated clause>` | `bad-op`. -/
 open NucleoVerif NucleoVerif.Driver
@@ -26,6 +27,7 @@ def answer (line : String) : String :=
   | "L" :: _ => lLine ws
   | "H" :: _ => hLine ws
   | "Q" :: _ => qLine ws
+  | "D" :: _ => dLine ws
   | _ => "bad-op"
 
 partial def loop (h : IO.FS.Stream) (out : IO.FS.Stream) : IO Unit := do
